@@ -268,12 +268,13 @@ func runC10(ctx *common.Ctx) error {
 			res.Fail(fmt.Sprintf("%s stream=%q", crash, data), "parser did not return normally", nil)
 			return
 		}
+		nf := len(res.Failures)
 		for i, w := range ws {
 			res.Evaluations++
 			res.Count("kind:" + w.Kind)
 			if i >= len(obs) {
 				res.Fail(canon(w, "MISSING"), "no result for this command", w)
-				continue
+				break
 			}
 			o := obs[i]
 			switch {
@@ -287,6 +288,12 @@ func runC10(ctx *common.Ctx) error {
 				res.Fail(canon(w, "EXTENT"), fmt.Sprintf("command occupies [%d,%d) but the parser consumed [%d,%d)", w.start, w.end, o.Start, o.End), w)
 			}
 			addCase("valid "+w.Kind, data, o)
+			if len(res.Failures) > nf {
+				break // what follows in this stream is out of step with the parser: not judged
+			}
+		}
+		if len(res.Failures) > nf {
+			return
 		}
 		// chunking independence
 		cobs, ccrash, blocked := parseChunked(data, gates, chunks, len(obs))
@@ -322,6 +329,7 @@ func runC10(ctx *common.Ctx) error {
 		{"t select \"InBoX\"\r\n", "t", `(select "INBOX")`},
 		{"t LIST \"\" *\r\n", "t", `(list "" "*")`},
 		{"t LSUB \"\" \"%\"\r\n", "t", `(lsub "" "%")`},
+		{"t LIST \"\" {7}\r\nINBOX/%\r\n", "t", `(list "" "INBOX/%")`},
 		{"t FETCH 1:*,3 (UID BODY.PEEK[1.2.HEADER.FIELDS.NOT (To From)]<0.10> RFC822.SIZE)\r\n", "t", `(fetch ((1 0) (3 3)) (uid (bodysection 1 (part (1 2) (headerfields 1 ("To" "From"))) (0 10)) rfc822size))`},
 		{"t fetch 4 body[]\r\n", "t", `(fetch ((4 4)) ((bodysection 0 () ())))`},
 		{"t FETCH 1 BODY[TEXT]<5.4294967295>\r\n", "t", `(fetch ((1 1)) ((bodysection 0 (text) (5 4294967295))))`},
